@@ -5,9 +5,16 @@
    when there is no row).
 
    Section variables: [lower] = strings.ToLower, [login_ok] / [pw_ok] = the
-   login and password policies, [verify] = bcrypt.CompareHashAndPassword = nil.
+   login and password policies, [cmp] = bcrypt.CompareHashAndPassword as a
+   THREE-valued oracle over ARBITRARY stored bytes: nil (match),
+   ErrMismatchedHashAndPassword, or any other error (hash too short, bad
+   prefix, newer version, unparsable / out-of-range cost, bad salt ...).
    The bcrypt hash GenerateFromPassword produces (salted, random) is an input
-   of the operation.  Time is a logical clock.  Definitions only. *)
+   of the operation.  [BRaw] is the store anomaly: the secret column of a
+   user's row replaced by arbitrary bytes (truncated / blanked column, row
+   imported with another scheme).  [bc_header] is golang.org/x/crypto/bcrypt
+   newFromHash (the checks made before any hashing) statement by statement.
+   Time is a logical clock.  Definitions only. *)
 From Coq Require Import NArith ZArith List Bool.
 From Tinode Require Import Pure.Token Pure.Code.
 Import ListNotations.
@@ -33,19 +40,63 @@ Fixpoint bdel_uid (uid : N) (st : bstore) : bstore :=
   | (k, r) :: t => if br_uid r =? uid then bdel_uid uid t else (k, r) :: bdel_uid uid t
   end.
 
+(* ---- bcrypt.CompareHashAndPassword: outcome; newFromHash's header checks ---- *)
+Inductive bcerr := BcTooShort | BcPrefix | BcVersion | BcCostSyntax | BcCostRange | BcOther | BcIndexPanic.
+Inductive bcres := BcMatch | BcMismatch | BcError (e : bcerr).
+(* err == nil *)
+Definition bc_is_nil (r : bcres) : bool := match r with BcMatch => true | _ => false end.
+
+Definition bc_is_digit (b : N) : bool := (48 <=? b) && (b <=? 57).
+(* strconv.Atoi(string(sbytes[0:2])): optional sign, then decimal digits only *)
+Definition bc_atoi2 (a b : N) : option Z :=
+  if bc_is_digit b then
+    if bc_is_digit a then Some (Z.of_N (10 * (a - 48) + (b - 48)))
+    else if a =? 43 then Some (Z.of_N (b - 48))
+    else if a =? 45 then Some (- Z.of_N (b - 48))%Z
+    else None
+  else None.
+(* newFromHash up to the copy of salt and hash: None = header accepted.  The index
+   expressions sbytes[0..2] / sbytes[0:2] are guarded by len >= minHashSize = 59;
+   an index out of range would be [BcIndexPanic] (proved unreachable) *)
+Definition bc_header (h : list N) : option bcerr :=
+  if N.of_nat (length h) <? 59 then Some BcTooShort else
+  match h with
+  | b0 :: b1 :: b2 :: rest =>
+    if negb (b0 =? 36) then Some BcPrefix else              (* sbytes[0] != '$' *)
+    if 50 <? b1 then Some BcVersion else                    (* sbytes[1] > majorVersion *)
+    let cs := if negb (b2 =? 36) then tl rest else rest in  (* n := 3; if sbytes[2] != '$' { n++ } *)
+    match cs with
+    | c0 :: c1 :: _ =>
+      match bc_atoi2 c0 c1 with
+      | None => Some BcCostSyntax
+      | Some c => if (c <? 4)%Z || (31 <? c)%Z then Some BcCostRange else None
+      end
+    | _ => Some BcIndexPanic
+    end
+  | _ => Some BcIndexPanic
+  end.
+
+Fixpoint bset_hash (uid : N) (hash : list N) (st : bstore) : bstore :=
+  match st with
+  | [] => []
+  | (k, r) :: t =>
+    (k, if br_uid r =? uid then mkBR (br_uid r) (br_level r) hash (br_expires r) else r) :: bset_hash uid hash t
+  end.
+
 Inductive berr := BEMalformed | BEPolicy | BEDuplicate | BEFailed | BEExpired | BENotFound.
 Inductive bop :=
 | BAdd (uid : N) (level : Z) (secret : list N) (hash : list N) (lifetime : Z)
 | BAuth (secret : list N)
 | BUpd (uid : N) (secret : list N) (hash : list N) (lifetime : Z)
-| BAdv (d : Z).
-Inductive bres := BAddOk (level : Z) | BAuthOk (uid : N) (level : Z) | BUpdOk | BErr (e : berr) | BAdvanced.
+| BAdv (d : Z)
+| BRaw (uid : N) (hash : list N).
+Inductive bres := BAddOk (level : Z) | BAuthOk (uid : N) (level : Z) | BUpdOk | BErr (e : berr) | BAdvanced | BRawOk.
 
 Section Basic.
 Variable lower : list N -> list N.
 Variable login_ok : list N -> bool.
 Variable pw_ok : list N -> bool.
-Variable verify : list N -> list N -> bool.
+Variable cmp : list N -> list N -> bcres.
 
 (* parseSecret: split at the first ':', lower-case the login *)
 Definition parse_secret (s : list N) : option (list N * list N) :=
@@ -80,7 +131,8 @@ Definition bstep (st : bstate) (op : bop) : bstate * bres :=
       | Some r =>
         if br_uid r =? 0 then (st, BErr BEFailed) else
         if (match br_expires r with Some e => (e <? now)%Z | None => false end) then (st, BErr BEExpired) else
-        if negb (verify (br_hash r) pw) then (st, BErr BEFailed) else
+        let err := cmp (br_hash r) pw in                    (* err = bcrypt.CompareHashAndPassword(passhash, password) *)
+        if negb (bc_is_nil err) then (st, BErr BEFailed) else (* if err != nil { return nil, nil, types.ErrFailed } *)
         (st, BAuthOk (br_uid r) (br_level r))
       end
     end
@@ -107,6 +159,11 @@ Definition bstep (st : bstate) (op : bop) : bstate * bres :=
       end
     end
   | BAdv d => (mkBS s (now + d)%Z, BAdvanced)
+  | BRaw uid hash =>
+    match bfind_uid uid s with
+    | None => (st, BErr BENotFound)
+    | Some _ => (mkBS (bset_hash uid hash s) now, BRawOk)
+    end
   end.
 
 Fixpoint brun (st : bstate) (ops : list bop) : bstate * list bres :=
